@@ -253,7 +253,7 @@ def run(ctx):
 
     # ---- R18.6
     ew = [(sw, t_t, f_t, c) for (sw, t_t, f_t, c) in lba.switches_on_call(r"core::str::<impl str>::ends_with") if (op_const(CL.blocks[c]["term"]["args"][1]) or {}).get("int") == 10]
-    reads = lba.calls(r".*BufRead>?::read_line|std::io::BufRead::read_line")
+    reads = lba.calls(r".*BufRead>?::read_(line|until)|std::io::BufRead::read_(line|until)")
     # the *decision* on the trailing newline: an ends_with test one side of which cannot continue (neither returns nor
     # reads on: the panic side of an assert!/debug_assert! restating the invariant) decides nothing
     cont = set(lba.returns()) | set(reads)
